@@ -771,12 +771,21 @@ func c15PerformJoin(c *mon.Ctx, r *gen.Rand, sc *simScenario, b *simBranch) {
 			simCreateVersionOverride = "9000"
 			alt := genScenario(r.Fork("altroom"), s.ver, 2)
 			simCreateVersionOverride = ""
+			if r.Chance(0.5) {
+				// the resident server also lists, first in the auth chain, a badly signed create event of another room whose
+				// version is known: a sanity check that stops at the first create event it sees is satisfied by the decoy
+				c15DecoyCreate = sc.s.create
+			}
 			c15PerformJoinOn(c, r, alt, alt.trunk.clone(), vec, names)
+			c15DecoyCreate = nil
 			continue
 		}
 		c15PerformJoinOn(c, r, sc, rb, vec, names)
 	}
 }
+
+// c15DecoyCreate, when set, is a create event of another room put (badly signed) at the head of the auth chain.
+var c15DecoyCreate gmsl.PDU
 
 // c15PerformJoinOn runs one PerformJoin case against the room state rb.
 func c15PerformJoinOn(c *mon.Ctx, r *gen.Rand, sc *simScenario, rb *simBranch, vec []bool, names []string) {
@@ -831,6 +840,9 @@ func c15PerformJoinOn(c *mon.Ctx, r *gen.Rand, sc *simScenario, rb *simBranch, v
 				js = corruptSig(p)
 			}
 			resp.state = append(resp.state, js)
+		}
+		if c15DecoyCreate != nil {
+			resp.auth = append(resp.auth, corruptSig(c15DecoyCreate))
 		}
 		if vec[1] {
 			resp.state = append(resp.state, s.create.JSON())
